@@ -210,7 +210,9 @@ func endpoints() []Endpoint {
 		Endpoint{Name: "prof.LabelNames_match", API: "prof", Unit: time.Millisecond, Family: "pf", UpIncl: true, Call: profPost(prof.QuerierService_LabelNames_FullMethodName, func(w Win) map[string]any { return map[string]any{"matchers": []string{lsel}} })},
 		Endpoint{Name: "prof.LabelValues", API: "prof", Unit: time.Millisecond, Family: "pf", UpIncl: true, Call: profPost(prof.QuerierService_LabelValues_FullMethodName, func(w Win) map[string]any { return map[string]any{"name": "pos"} })},
 		Endpoint{Name: "prof.LabelValues_match", API: "prof", Unit: time.Millisecond, Family: "pf", UpIncl: true, Call: profPost(prof.QuerierService_LabelValues_FullMethodName, func(w Win) map[string]any { return map[string]any{"name": "pos", "matchers": []string{lsel}} })},
-		Endpoint{Name: "prof.Series", API: "prof", Unit: time.Millisecond, Family: "pf", UpIncl: true, Call: profPost(prof.QuerierService_Series_FullMethodName, func(w Win) map[string]any { return map[string]any{"matchers": []string{lsel}, "label_names": []string{"pos"}} })},
+		Endpoint{Name: "prof.Series", API: "prof", Unit: time.Millisecond, Family: "pf", UpIncl: true, Call: profPost(prof.QuerierService_Series_FullMethodName, func(w Win) map[string]any {
+			return map[string]any{"matchers": []string{lsel}, "label_names": []string{"pos"}}
+		})},
 		Endpoint{Name: "prof.Series_all", API: "prof", Unit: time.Millisecond, Family: "pf", UpIncl: true, Call: profPost(prof.QuerierService_Series_FullMethodName, func(w Win) map[string]any { return map[string]any{} })},
 		Endpoint{Name: "prof.SelectSeries", API: "prof", Unit: time.Millisecond, Family: "pf", Metric: true, Bucket: 15 * time.Second, UpIncl: true, Call: profPost(prof.QuerierService_SelectSeries_FullMethodName, func(w Win) map[string]any {
 			return map[string]any{"profile_typeID": profType, "label_selector": lsel, "group_by": []string{"pos"}, "step": 15.0}
